@@ -38,6 +38,26 @@ def by_op(lines):
     return ops
 
 
+def canon_ident(lines):
+    """`I` lines number the pointer-identity classes globally in order of first occurrence, so one extra class in an
+    early register shifts every later number. Rewrite each class as <register>.<position> of its first occurrence:
+    the same sharing structure then gives the same lines, and a difference stays confined to the registers it concerns."""
+    first = {}
+    out = []
+    for l in lines:
+        p = l.split(' ')
+        if len(p) != 3 or p[2] in ('big', '-'):
+            out.append(l)
+            continue
+        toks = []
+        for k, c in enumerate(p[2].split(',')):
+            if c not in first:
+                first[c] = '%s.%d' % (p[1], k)
+            toks.append(first[c])
+        out.append('%s %s %s' % (p[0], p[1], ','.join(toks)))
+    return out
+
+
 def compare(a_lines, b_lines, views=('obs', 'shape', 'memo', 'ident', 'fresh'), relevant=None):
     """first difference per view between two histories' line lists: {view: (opno, a_line, b_line)}.
     With `relevant(view, opno, a_line, b_line)` given, differences it rejects are skipped (and reported under
@@ -65,6 +85,8 @@ def compare(a_lines, b_lines, views=('obs', 'shape', 'memo', 'ident', 'fresh'), 
             if view not in views:
                 continue
             al, bl = ao.get(tag, []), bo.get(tag, [])
+            if tag == 'I':
+                al, bl = canon_ident(al), canon_ident(bl)
             if tag in 'OSMI':
                 # state lines (one per register): a difference counts where it is INTRODUCED, i.e. the same
                 # register's line agreed after the previous operation; afterwards it is inherited, not new
